@@ -1,6 +1,6 @@
 (* Dec/OptProofs.v - C11: the binder of the alternative decoder (Opt, OptFast) against the default one (Jit). *)
 From Coq Require Import NArith ZArith List Bool Lia.
-From SV.Dec Require Import Ty Val Parse Text Num Common FieldMap FieldMapProofs FieldLookup Range StdBind SonicBind DecProofs.
+From SV.Dec Require Import Ty Val Parse ParseMono Text Num Common FieldMap FieldMapProofs FieldLookup Range StdBind SonicBind DecProofs Witness.
 Import ListNotations.
 Open Scope N_scope.
 
@@ -368,17 +368,143 @@ Section Equiv.
       + (* FNil *) intros _ im i j vs _ _ _. reflexivity.
       + (* FCons *) intros n q t IHt r IHr F im i j vs Him G Hi. simpl in F.
         apply andb_prop in F as [F Fr]. apply andb_prop in F as [F Ft]. apply andb_prop in F as [Fq Fn].
-        apply negb_true_iff in Fq. subst q. step.
-        destruct vs as [|v vr]; [reflexivity|]. destruct i as [|i].
+        apply negb_true_iff in Fq. subst q.
+        destruct vs as [|v vr]; [reflexivity|]. destruct i as [|i]; simpl.
         * simpl in Hi. rewrite (IHt Ft im j v Him G Hi). reflexivity.
         * simpl in Hi. rewrite (IHr Fr im i j vr Him G Hi). reflexivity.
     - intro fs. induction fs as [|n q t r IHr]; unfold Qfs in *.
       + intros _ im i j vs _ _ _. reflexivity.
       + intros F im i j vs Him G Hi. simpl in F.
         apply andb_prop in F as [F Fr]. apply andb_prop in F as [F Ft]. apply andb_prop in F as [Fq Fn].
-        apply negb_true_iff in Fq. subst q. step.
-        destruct vs as [|v vr]; [reflexivity|]. destruct i as [|i].
+        apply negb_true_iff in Fq. subst q.
+        destruct vs as [|v vr]; [reflexivity|]. destruct i as [|i]; simpl.
         * simpl in Hi. rewrite (H t Ft im j v Him G Hi). reflexivity.
         * simpl in Hi. rewrite (IHr Fr im i j vr Him G Hi). reflexivity.
   Qed.
 End Equiv.
+
+(* ---- whole input ---- *)
+Section Top.
+  Variable h : bytes -> N.
+  Variable o : opts.
+
+  (* a valid document in the sense of the property: accepted by the strict reader, no number beyond binary64, plus
+     the conditions under which the statement is proved (strings on which the unquoters coincide, distinct keys,
+     no null array element) *)
+  Record doc_ok (j : jv) : Prop := {
+    d_strict : strict_jv j = true;
+    d_esc : escapes_ok j = true;
+    d_ctl : has_ctl j = false;
+    d_inf : has_inf j = false;
+    d_g : guards11 o j
+  }.
+
+  (* valid documents: the three implementations return the same result *)
+  Theorem equiv_top : forall im t s v j,
+    is_opt im = true -> frag11 t = true -> nh v = true ->
+    utf8_valid s = true -> lparse true s = Some j -> doc_ok j ->
+    sonic_unmarshal h im o t s v = sonic_unmarshal h Jit o t s v.
+  Proof.
+    intros im t s v j Him F Hv U L [D1 D2 D3 D4 D5]. unfold sonic_unmarshal. rewrite Him. cbn [is_opt].
+    assert (E : (if o_validate o then (if utf8_valid s then s else utf8_correct s) else s) = s)
+      by (rewrite U; destruct (o_validate o); reflexivity).
+    rewrite E. rewrite (lparse_mono _ _ L). rewrite D2, D4, D3, U. cbn [negb orb andb].
+    assert (Lv : lparse (o_validate o) s = Some j) by (destruct (o_validate o); [exact L|apply lparse_mono; exact L]).
+    rewrite Lv, D1. rewrite andb_false_r.
+    apply (proj1 (equiv_all h o)); assumption.
+  Qed.
+
+  (* structurally malformed input: rejected by all three *)
+  Theorem malformed_rejected : forall im t s v,
+    let s' := if o_validate o then (if utf8_valid s then s else utf8_correct s) else s in
+    lparse false s' = None -> sonic_unmarshal h im o t s v = Err.
+  Proof.
+    intros im t s v s' L. unfold sonic_unmarshal. fold s'.
+    destruct (is_opt im); [rewrite L; reflexivity|].
+    assert (Lv : lparse (o_validate o) s' = None) by (destruct (o_validate o); [apply lparse_none_mono; exact L|exact L]).
+    rewrite Lv. reflexivity.
+  Qed.
+End Top.
+
+(* ---- witnesses of the modelled divergences (each replayed on the real back ends from corpus/C01) ---- *)
+From Coq Require Import String Ascii.
+Open Scope string_scope.
+
+(* a number beyond binary64 bound to json.Number (or skipped): the DOM reader of optdec fails *)
+Theorem float_inf_refuted :
+  let t := TStruct (fld "n" TNum FNil) in
+  sonic_unmarshal h1 Jit opts_std t (b "{""n"":1e400}") (VList [VStr []] []) = Ok (VList [VStr (b "1e400")] []) /\
+  sonic_unmarshal h1 Opt opts_std t (b "{""n"":1e400}") (VList [VStr []] []) = Err /\
+  sonic_unmarshal h1 Jit opts_std (TStruct (fld "a" (TInt I64) FNil)) (b "{""zz"":1e400}") (VList [VInt 0] []) = Ok (VList [VInt 0] []) /\
+  sonic_unmarshal h1 Opt opts_std (TStruct (fld "a" (TInt I64) FNil)) (b "{""zz"":1e400}") (VList [VInt 0] []) = Err.
+Proof. repeat split; vm_compute; reflexivity. Qed.
+
+(* []string: a null element *)
+Theorem slice_null_element_refuted :
+  sonic_unmarshal h1 Jit opts_std (TSlice TStr) (b "[null]") VNil = Ok (VList [VStr []] []) /\
+  sonic_unmarshal h1 Opt opts_std (TSlice TStr) (b "[null]") VNil = Err.
+Proof. split; vm_compute; reflexivity. Qed.
+
+(* a slice with hidden elements and an input longer than its capacity *)
+Theorem slice_grow_refuted :
+  let t := TSlice (TStruct (fld "A" (TInt I64) (fld "B" (TInt I64) FNil))) in
+  let v := VList [] [VList [VInt 7; VInt 8] []] in
+  let s := b "[{""A"":1},{""A"":2}]" in
+  sonic_unmarshal h1 Jit opts_std t s v = Ok (VList [VList [VInt 1; VInt 8] []; VList [VInt 2; VInt 0] []] []) /\
+  sonic_unmarshal h1 Opt opts_std t s v = Ok (VList [VList [VInt 1; VInt 0] []; VList [VInt 2; VInt 0] []] []).
+Proof. split; vm_compute; reflexivity. Qed.
+
+(* map[string]string with a null value; map[uint32] with a key above 2^32-1; float32 just above MaxFloat32;
+   null into a pointer to pointer to an unmarshaler *)
+Theorem map_string_null_refuted :
+  sonic_unmarshal h1 Jit opts_std (TMap KStr TStr) (b "{""k"":null}") VNil = Ok (VMap [(VStr (b "k"), VStr [])]) /\
+  sonic_unmarshal h1 Opt opts_std (TMap KStr TStr) (b "{""k"":null}") VNil = Err.
+Proof. split; vm_compute; reflexivity. Qed.
+
+Theorem u32_key_refuted :
+  sonic_unmarshal h1 Jit opts_std (TMap (KInt U32) (TInt I64)) (b "{""4294967296"":1}") VNil = Ok (VMap [(VInt 0, VInt 1)]) /\
+  sonic_unmarshal h1 Opt opts_std (TMap (KInt U32) (TInt I64)) (b "{""4294967296"":1}") VNil = Err.
+Proof. split; vm_compute; reflexivity. Qed.
+
+Theorem f32_edge_refuted :
+  sonic_unmarshal h1 Jit opts_std TF32 (b "3.4028235e38") (VFlt 0) = Ok (VFlt 2139095039) /\
+  sonic_unmarshal h1 Opt opts_std TF32 (b "3.4028235e38") (VFlt 0) = Err.
+Proof. split; vm_compute; reflexivity. Qed.
+
+Theorem ptrptr_null_refuted_11 :
+  sonic_unmarshal h1 Jit opts_std (TPtr (TPtr TUnm)) (b "null") VNil = Err /\
+  sonic_unmarshal h1 Opt opts_std (TPtr (TPtr TUnm)) (b "null") VNil = Ok VNil.
+Proof. split; vm_compute; reflexivity. Qed.
+
+(* ---- the hypotheses of equiv_top are satisfiable: the C01 example document without its duplicate keys ---- *)
+Definition ex11_in : bytes :=
+  b "{""a"":7,""B"":[""p"",""q""],""c"":{""k"":2,""m"":[3,true]},""zz"":[1,{""q"":""x""}],""NAME"":[7,8,9]} ".
+
+Lemma Forall_plain11 : forall o l, forallb (forallb plain_byte) l = true ->
+  Forall (fun x => sunq Opt o x = sunq Jit o x /\ sunq OptFast o x = sunq Jit o x) l.
+Proof.
+  intros o l H. rewrite forallb_forall in H. apply Forall_forall. intros x Hx. specialize (H x Hx).
+  unfold sunq, unquote. rewrite !unquote_plain by (auto; lia). split; reflexivity.
+Qed.
+
+Example equiv_example : forall o, (o = opts_std \/ o = opts_default) ->
+  exists j, lparse true ex11_in = Some j /\ doc_ok o j /\ frag11 ex_ty = true /\ nh ex_v0 = true /\ utf8_valid ex11_in = true /\
+            sonic_unmarshal h1 Opt o ex_ty ex11_in ex_v0 = sonic_unmarshal h1 Jit o ex_ty ex11_in ex_v0 /\
+            sonic_unmarshal h1 OptFast o ex_ty ex11_in ex_v0 = sonic_unmarshal h1 Jit o ex_ty ex11_in ex_v0 /\
+            exists r, sonic_unmarshal h1 Jit o ex_ty ex11_in ex_v0 = Ok r.
+Proof.
+  intros o Ho.
+  assert (E : exists j0, lparse true ex11_in = Some j0 /\ strict_jv j0 = true /\ escapes_ok j0 = true /\ has_ctl j0 = false /\ has_inf j0 = false /\
+                        forallb (forallb plain_byte) (jv_strings j0) = true).
+  { eexists. split; [vm_compute; reflexivity|]. repeat split; vm_compute; reflexivity. }
+  destruct E as [j0 [P [E1 [E2 [E3 [E4 E5]]]]]]. exists j0. split; [exact P|]. split.
+  - constructor; try assumption. constructor.
+    + apply Forall_plain11. exact E5.
+    + (* distinct keys, no null elements: by computation on the concrete tree *)
+      assert (Hj : Some j0 = lparse true ex11_in) by (symmetry; exact P).
+      vm_compute in Hj. inversion Hj; subst j0. clear - Ho.
+      destruct Ho as [->| ->]; simpl; repeat split; try discriminate;
+        repeat (constructor; [simpl; intuition discriminate|]); try constructor.
+  - split; [vm_compute; reflexivity|]. split; [vm_compute; reflexivity|]. split; [vm_compute; reflexivity|].
+    destruct Ho; subst o; repeat split; try (vm_compute; reflexivity); eexists; vm_compute; reflexivity.
+Qed.
